@@ -263,8 +263,9 @@ func (ts *TernarySampler) sampleSparse(pol Poly, f func(a, b, c uint64) uint64) 
 	}
 
 	for _, i := range index {
-		for k := range moduli {
-			coeffs[k][i] = 0
+		for k, qi := range moduli {
+			// unselected coefficients are 0 for Read and left unchanged by ReadAndAdd
+			coeffs[k][i] = f(coeffs[k][i], 0, qi)
 		}
 	}
 }
